@@ -83,6 +83,14 @@ def _norm_compression_opts(
     return compression
 
 
+def _band_first(xx: xr.DataArray) -> Any:
+    # layout is known from dimension names, avoid guessing it from shape (N,N,N is ambiguous)
+    pix = xx.data
+    if pix.ndim == 3 and xx.odc.ydim == 0:
+        pix = pix.transpose([2, 0, 1])
+    return pix
+
+
 def _write_cog(
     pix: np.ndarray,
     geobox: GeoBox,
@@ -111,9 +119,11 @@ def _write_cog(
         nbands = 1
         band = 1  # type: Any
     elif pix.ndim == 3:
-        if pix.shape[:2] == geobox.shape:
+        if pix.shape[-2:] == geobox.shape:
+            pass  # band first already
+        elif pix.shape[:2] == geobox.shape:
             pix = pix.transpose([2, 0, 1])
-        elif pix.shape[-2:] != geobox.shape:
+        else:
             raise ValueError("GeoBox shape does not match image shape")
 
         nbands, h, w = pix.shape  # type: ignore
@@ -278,7 +288,7 @@ def write_cog(
         assert result is not None
         return result
 
-    pix = geo_im.data
+    pix = _band_first(geo_im)
     geobox = geo_im.odc.geobox
     nodata = extra_rio_opts.pop("nodata", None)
     if nodata is None:
@@ -426,7 +436,7 @@ def write_cog_layers(
         # write each layer into mem image
         for img, m in zip(xx, mm):
             _write_cog(
-                img.data,
+                _band_first(img),
                 img.odc.geobox,
                 m.name,
                 overview_levels=[],
